@@ -18,11 +18,12 @@ def main(argv):
         if '--tier' in argv:
             tier = argv[argv.index('--tier') + 1]
         try:
-            mod = importlib.import_module('onlsa.rules.%s' % prop.lower())
+            importlib.import_module('onlsa.rules.%s' % prop.lower())
         except ImportError as e:
             print('ANALYSIS-ERROR property=%s no rule module: %s' % (prop, e))
             return 2
-        return run_check(prop, tier, lambda ctx: mod.check(ctx))
+        from .rules import check_property
+        return run_check(prop, tier, lambda ctx: check_property(prop, ctx))
     if cmd == 'replay':
         d = json.load(open(argv[1]))
         print('replay: re-running the check of property %s (rule %s, construct %s)' % (d['property'], d['rule'], d['construct']))
